@@ -40,14 +40,23 @@ pub fn check_batch(s: &dyn Subject, key: &[u8], n: usize, dir: Dir) -> Result<()
         let rf = reference(&name, key).ok_or(("reference exists".to_string(), "no reference model".to_string()))?;
         let inst = s.from_slice(key).map_err(|_| ("constructs".to_string(), "InvalidLength".to_string()))?;
         let orig: Vec<u8> = (0..n).flat_map(|j| al::dense(bs, 78, j as u64)).collect();
-        let mut got = orig.clone();
-        inst.blocks(dir, &mut got);
         let mut exp = orig.clone();
         for c in exp.chunks_exact_mut(bs) {
             match dir {
                 Dir::Enc => rf.encrypt(c),
                 Dir::Dec => rf.decrypt(c),
             }
+        }
+        // the same batch through the in-place, buffer-to-buffer and separate in/out call shapes
+        let mut got = orig.clone();
+        inst.blocks(dir, &mut got);
+        for shape in [crate::subjects::Shape::BlocksB2b, crate::subjects::Shape::BlocksInoutSep, crate::subjects::Shape::BlockB2b] {
+            if got != exp {
+                break;
+            }
+            let mut out = vec![0xEEu8; n * bs];
+            unsafe { inst.call(dir, shape, orig.as_ptr(), out.as_mut_ptr(), n) };
+            got = out;
         }
         if got != exp {
             let j = (0..n).find(|&j| got[j * bs..(j + 1) * bs] != exp[j * bs..(j + 1) * bs]).unwrap();
